@@ -1135,9 +1135,13 @@ impl Store {
         client_id: ClientId,
         path: &[RegularKeySegment],
     ) -> WorterbuchResult<Option<ClientId>> {
-        let node = self.get_or_create_lock_node(path.into());
+        // look the node up without creating it: nodes created here would never be cleaned up again
+        let mut node = Some(&mut self.locks);
+        for elem in path {
+            node = node.and_then(|n| n.get_child_mut(elem));
+        }
 
-        if let Some(lock) = node.value_mut() {
+        if let Some(lock) = node.and_then(Node::value_mut) {
             let (was_holder, new_holder) = lock.release(client_id).await;
             if !was_holder {
                 return Err(WorterbuchError::KeyIsLocked(path.join("/")));
